@@ -82,6 +82,7 @@ def units(tier):
     for sh in range(n):
         out.append({'fam': 'small', 'L': L, 'shard': [sh, n]})
     out.append({'fam': 'ints'})
+    out.append({'fam': 'huge'})
     out.append({'fam': 'empty'})
     idx = list(range(len(STRUCT)))
     big = [i for i in idx if STRUCT[i][1] == 10000]
@@ -105,6 +106,11 @@ def cases(unit):
     elif fam == 'ints':
         for seq in spaces.sequences(INTS, 4, 1):
             yield {'fam': 'ints', 'seq': seq}
+    elif fam == 'huge':
+        for seq in spaces.sequences([0, 1, 2], 3, 1):
+            yield {'fam': 'huge', 'seq': seq, 'which': 'big'}
+        for seq in spaces.sequences([0, 1, 2], 3, 1):
+            yield {'fam': 'huge', 'seq': seq, 'which': 'max'}
     elif fam == 'empty':
         yield {'fam': 'empty'}
     elif fam == 'struct':
@@ -159,7 +165,9 @@ def expected(op, st):
         v = ss / n
     V, M = float(v), abs(float(mean))
     K = 8
-    tol = K * n * U * math.sqrt(V * (V + M * M)) + K * (n * U) ** 2 * (V + M * M) + 5e-324
+    # sqrt(V) * sqrt(V + M^2) instead of sqrt(V * (V + M^2)): no overflow for magnitudes around 1e152
+    spread = math.sqrt(V) * math.sqrt(V + M * M) if math.isfinite(V + M * M) else math.sqrt(V) * max(math.sqrt(V), M)
+    tol = K * n * U * spread + K * (n * U) ** 2 * (V + M * M if math.isfinite(V + M * M) else spread) + 5e-324
     if op in ('variance', 'fvariance'):
         return v, tol
     sd = math.sqrt(V)
@@ -271,6 +279,15 @@ def run_case(case, acc):
         xs = list(case['seq'])
         check_seq(xs, acc, OPS, xs, out, seen)
         acc.nontrivial.add(fast_hash(('i',) + tuple(xs)))
+    elif fam == 'huge':
+        import sys
+        if case['which'] == 'big':
+            xs = [[2e152, -1e152, 3e152][i] for i in case['seq']]
+            check_seq(xs, acc, OPS, xs, out, seen)
+        else:
+            xs = [[sys.float_info.max, -sys.float_info.max, 1e308][i] for i in case['seq']]
+            check_seq(xs, acc, ['min', 'max'], xs, out, seen)
+        acc.nontrivial.add(fast_hash(('huge', case['which'], tuple(case['seq']))))
     elif fam == 'empty':
         for op, want in (('sum', 0.0), ('min', None), ('max', None), ('variance', 0.0), ('stddev', 0.0), ('fvariance', 0.0), ('fstddev', 0.0)):
             for runner in (run_plain, run_mux):
